@@ -22,6 +22,7 @@ use serde_json::{json, Value};
 use nalgebra::DMatrix;
 use ndarray::{Array2, ShapeBuilder};
 use smartcore::linalg::naive::dense_matrix::DenseMatrix;
+use smartcore::api::{Predictor, SupervisedEstimator};
 use smartcore::linalg::BaseVector;
 use smartcore::tree::decision_tree_classifier::{
     DecisionTreeClassifier, DecisionTreeClassifierParameters, SplitCriterion,
@@ -50,6 +51,7 @@ struct Case {
     shift: i32, // != 0: also fit on x * 2^shift
     backend: &'static str, // "dense" | "dense32" (f32 elements) | "ndarray_f" | "ndarray_c" | "nalgebra"
     expect: Option<Value>,
+    entry: &'static str, // "inherent": Type::fit / tree.predict; "trait": SupervisedEstimator::fit / Predictor::predict
 }
 
 struct RawNode {
@@ -115,13 +117,19 @@ macro_rules! fit_with {
             p.max_depth = if c.max_depth == 0 { None } else { Some(c.max_depth) };
             p.min_samples_leaf = c.msl;
             p.min_samples_split = c.mss;
-            match DecisionTreeClassifier::<$t>::fit(&x, &y, p) {
+            let fitted = if c.entry == "trait" {
+                <DecisionTreeClassifier<$t> as SupervisedEstimator<_, _, DecisionTreeClassifierParameters>>::fit(&x, &y, p)
+            } else {
+                DecisionTreeClassifier::<$t>::fit(&x, &y, p)
+            };
+            match fitted {
                 Err(_) => None,
                 Ok(tree) => {
                     let dump = serde_json::to_value(&tree).unwrap();
-                    let pred = tree.predict(&x).ok().map(|v| back(BaseVector::to_vec(&v)));
+                    let tr = c.entry == "trait";
+                    let pred = (if tr { Predictor::predict(&tree, &x) } else { tree.predict(&x) }).ok().map(|v| back(BaseVector::to_vec(&v)));
                     let predq = match &q {
-                        Some(q) => tree.predict(q).ok().map(|v| back(BaseVector::to_vec(&v))),
+                        Some(q) => (if tr { Predictor::predict(&tree, q) } else { tree.predict(q) }).ok().map(|v| back(BaseVector::to_vec(&v))),
                         None => Some(vec![]),
                     };
                     let classes = dump["classes"]
@@ -140,13 +148,19 @@ macro_rules! fit_with {
                 min_samples_leaf: c.msl,
                 min_samples_split: c.mss,
             };
-            match DecisionTreeRegressor::<$t>::fit(&x, &y, p) {
+            let fitted = if c.entry == "trait" {
+                <DecisionTreeRegressor<$t> as SupervisedEstimator<_, _, DecisionTreeRegressorParameters>>::fit(&x, &y, p)
+            } else {
+                DecisionTreeRegressor::<$t>::fit(&x, &y, p)
+            };
+            match fitted {
                 Err(_) => None,
                 Ok(tree) => {
                     let dump = serde_json::to_value(&tree).unwrap();
-                    let pred = tree.predict(&x).ok().map(|v| back(BaseVector::to_vec(&v)));
+                    let tr = c.entry == "trait";
+                    let pred = (if tr { Predictor::predict(&tree, &x) } else { tree.predict(&x) }).ok().map(|v| back(BaseVector::to_vec(&v)));
                     let predq = match &q {
-                        Some(q) => tree.predict(q).ok().map(|v| back(BaseVector::to_vec(&v))),
+                        Some(q) => (if tr { Predictor::predict(&tree, q) } else { tree.predict(q) }).ok().map(|v| back(BaseVector::to_vec(&v))),
                         None => Some(vec![]),
                     };
                     match (pred, predq) {
@@ -359,7 +373,7 @@ fn case_events(run: i64, c: &Case, out: &mut Out) {
     let n = c.x.len();
     let p = c.x.first().map(|r| r.len()).unwrap_or(0);
     let head = json!({"run": run, "kind": c.kind, "crit": c.crit, "maxDepth": c.max_depth, "msl": c.msl,
-                      "mss": c.mss, "n": n, "p": p, "family": c.family, "backend": c.backend,
+                      "mss": c.mss, "n": n, "p": p, "family": c.family, "backend": c.backend, "entry": c.entry,
                       "prec": if c.backend == "dense32" { "f32" } else { "f64" },
                       "y": ynum(c), "yden": c.yden, "shift": 0});
     let (status, rec) = fit_record(c, 1.0);
@@ -424,14 +438,30 @@ fn gen_x(r: &mut StdRng, n: usize, p: usize, f32mode: bool) -> (Vec<Vec<f64>>, i
 }
 
 fn gen_x64(r: &mut StdRng, n: usize, p: usize, f32mode: bool) -> (Vec<Vec<f64>>, i64, &'static str) {
-    let fam = r.gen_range(0..100);
+    let fam = r.gen_range(0..110);
     let mut x = vec![vec![0.0; p]; n];
+    if fam >= 100 {
+        // every column in one of the structured row orders (decreasing run with one exception,
+        // organ pipe, saw tooth, median-of-three killer, ...)
+        for j in 0..p {
+            let kind_i = r.gen_range(0..12);
+            let col = pattern(r, kind_i, n);
+            for i in 0..n {
+                x[i][j] = col[i] as f64;
+            }
+        }
+        let _ = f32mode;
+        return (x, 1, "ordered");
+    }
     if fam < 35 {
         // small integers, many repeated values
         let hi = *[1i64, 2, 3, 5, 9].choose(r).unwrap();
         for row in x.iter_mut() {
             for v in row.iter_mut() {
                 *v = r.gen_range(0..=hi) as f64;
+                if *v == 0.0 && r.gen_bool(0.3) {
+                    *v = -0.0; // equal to +0.0 in every comparison the tree makes
+                }
             }
         }
         (x, 1, "smallint")
@@ -497,6 +527,42 @@ fn gen_x64(r: &mut StdRng, n: usize, p: usize, f32mode: bool) -> (Vec<Vec<f64>>,
 /// the float `k` units in the last place above `base` (towards larger magnitude)
 fn ulps(base: f64, k: u64) -> f64 {
     f64::from_bits(base.to_bits() + k)
+}
+
+/// Order / structure families for a column of `n` integers (as the rows come): the classic
+/// shapes that take a quicksort through its special paths.  `kind` 0..=11.
+fn pattern(r: &mut StdRng, kind: usize, n: usize) -> Vec<i64> {
+    let n_i = n as i64;
+    let mut v: Vec<i64> = match kind {
+        0 => (0..n_i).map(|i| 2 * (n_i - i)).collect(),                     // strictly decreasing
+        1 | 2 | 3 => (0..n_i).map(|i| 2 * (n_i - i)).collect(),             // decreasing, one exception (below)
+        4 | 5 => (0..n_i).map(|i| 2 * i).collect(),                         // increasing (one exception below)
+        6 => (0..n_i).map(|i| if i < n_i / 2 { 2 * i } else { 2 * (n_i - i) - 1 }).collect(), // organ pipe
+        7 => { let k = r.gen_range(2..=9i64); (0..n_i).map(|i| i % k * 10 + i / k).collect() } // saw tooth
+        8 => {
+            // median-of-three killer (Musser): pivots chosen from first / middle / last are bad
+            let mut a = vec![0i64; n];
+            let k = n / 2;
+            for i in 0..k {
+                if i % 2 == 0 { a[i] = i as i64 + 1; } else { a[i] = (k + i) as i64 + if k % 2 == 0 { 0 } else { 1 }; }
+                if k + i < n { a[k + i] = 2 * (i as i64 + 1); }
+            }
+            if n % 2 == 1 { a[n - 1] = n_i + 1; }
+            a
+        }
+        9 => { let k = r.gen_range(1..=3i64); (0..n_i).map(|i| (i * 7919) % k.max(1)).collect() } // few values
+        10 => (0..n_i).map(|i| if i % 2 == 0 { i } else { 2 * n_i - i }).collect(),           // interleaved up / down
+        _ => { let b = n_i / 3 + 1; (0..n_i).map(|i| (i / b) * 1000 - (i % b) * 2).collect() } // decreasing blocks, rising
+    };
+    match kind {
+        1 => { if n >= 2 { v[n - 1] = v[n - 2] + 2 * r.gen_range(1..=4) + 1; } }      // last element larger than its predecessor
+        2 => { if n >= 2 { v[0] = v[1] - 2 * r.gen_range(1..=4) - 1; } }               // first element smaller than its successor
+        3 => { if n >= 3 { let i = r.gen_range(1..n - 1); v[i] = v[i - 1] + 1; } }     // one exception inside
+        4 => { if n >= 2 { v[n - 1] = v[n - 2] - 2 * r.gen_range(1..=4) - 1; } }
+        5 => { if n >= 2 { v[0] = v[1] + 2 * r.gen_range(1..=4) + 1; } }
+        _ => {}
+    }
+    v
 }
 
 fn gen_queries(r: &mut StdRng, x: &[Vec<f64>], xden: i64, m: usize) -> Vec<Vec<f64>> {
@@ -616,7 +682,73 @@ fn gen_case(r: &mut StdRng, nmax: usize) -> Case {
     } else {
         0
     };
-    Case { kind, crit, max_depth, msl, mss, x, y, q, xden, yden, family: fam.to_string(), shift, backend, expect: None }
+    let mut c = Case { kind, crit, max_depth, msl, mss, x, y, q, xden, yden, family: fam.to_string(), shift, backend, expect: None,
+                        entry: if r.gen_bool(0.3) { "trait" } else { "inherent" } };
+    if r.gen_range(0..100) < 5 {
+        near_max(r, &mut c);
+    }
+    c
+}
+
+/// Near-overflow magnitudes: the features become dyadic values in [1, 2) and the rescaling
+/// exponent the largest one that keeps them finite (2^1023 in f64, 2^127 in f32), so that every
+/// scaled value is finite while the sum of any two overflows.  Queries are training values and
+/// midpoints (finite after scaling).
+fn near_max(r: &mut StdRng, c: &mut Case) {
+    let n = c.x.len();
+    let p = c.x[0].len();
+    for j in 0..p {
+        let distinct = n <= 16 && r.gen_bool(0.6);
+        let mut perm: Vec<i64> = (0..16).collect();
+        perm.shuffle(r);
+        for i in 0..n {
+            let m = if distinct { perm[i] } else { r.gen_range(0..16) };
+            c.x[i][j] = 1.0 + m as f64 / 16.0;
+        }
+    }
+    c.q = (0..4).map(|_| (0..p).map(|j| {
+        let a = c.x[r.gen_range(0..n)][j];
+        let b = c.x[r.gen_range(0..n)][j];
+        if r.gen_bool(0.5) { a } else { (a + b) / 2.0 }
+    }).collect()).collect();
+    c.xden = 32;
+    c.family = "nearmax".to_string();
+    c.shift = if c.backend == "dense32" { 127 } else { 1023 };
+}
+
+/// Training sets whose size straddles powers of two (block sizes, stack depths): a handful of
+/// regression / entropy trees with one or two pairwise-distinct or structured features.
+fn ladder_cases(r: &mut StdRng, sizes: &[usize]) -> Vec<Case> {
+    let mut v = Vec::new();
+    for &n in sizes.iter() {
+        let p = r.gen_range(1..=2usize);
+        let mut x = vec![vec![0.0; p]; n];
+        for j in 0..p {
+            let col: Vec<i64> = if r.gen_bool(0.5) {
+                let mut perm: Vec<i64> = (0..n as i64).collect();
+                perm.shuffle(r);
+                perm
+            } else {
+                {
+                let kind_i = *[1usize, 2, 6, 8, 11].choose(r).unwrap();
+                pattern(r, kind_i, n)
+            }
+            };
+            for i in 0..n {
+                x[i][j] = col[i] as f64;
+            }
+        }
+        let reg = r.gen_bool(0.6);
+        let ranks = dense_ranks(&x.iter().map(|row| row[0]).collect::<Vec<f64>>());
+        let y: Vec<f64> = (0..n).map(|i| if reg { ((ranks[i] * 37) % 41 - 20) as f64 } else { ((ranks[i] / 3) % 3) as f64 * 5.0 - 5.0 }).collect();
+        let q = gen_queries(r, &x, 1, 6);
+        v.push(Case { kind: if reg { "reg" } else { "cls" }, crit: if reg { "mse" } else { "entropy" }, max_depth: 0,
+                      msl: r.gen_range(1..=3), mss: r.gen_range(0..=4), x, y, q, xden: 1, yden: 1,
+                      family: "ladder".to_string(), shift: if r.gen_bool(0.5) { 5 } else { 0 },
+                      backend: *["dense", "ndarray_f", "nalgebra"].choose(r).unwrap(), expect: None,
+                      entry: if r.gen_bool(0.5) { "trait" } else { "inherent" } });
+    }
+    v
 }
 
 /// hand-built boundary cases that every run contains
@@ -625,7 +757,7 @@ fn fixed_cases() -> Vec<Case> {
     let mk = |kind: &'static str, crit: &'static str, md: u16, msl: usize, mss: usize, x: Vec<Vec<f64>>, y: Vec<f64>, fam: &str| Case {
         kind, crit, max_depth: md, msl, mss,
         q: vec![x[0].iter().map(|v| v + 0.5).collect(), x[0].iter().map(|v| v - 10.0).collect()],
-        x, y, xden: 1, yden: 1, family: fam.to_string(), shift: 1, backend: "dense", expect: None,
+        x, y, xden: 1, yden: 1, family: fam.to_string(), shift: 1, backend: "dense", expect: None, entry: "inherent",
     };
     let col = |a: &[i64]| -> Vec<Vec<f64>> { a.iter().map(|&v| vec![v as f64]).collect() };
     let yv = |a: &[i64]| -> Vec<f64> { a.iter().map(|&v| v as f64).collect() };
@@ -669,6 +801,33 @@ fn fixed_cases() -> Vec<Case> {
             c.shift = shift;
             c.backend = backend;
             v.push(c);
+        }
+    }
+    // near-overflow magnitudes: values in [1,2) * 2^1023 (f64) / 2^127 (f32): finite, pairwise sums overflow
+    for &backend in ["dense", "dense32"].iter() {
+        for &(kind, crit) in [("reg", "mse"), ("cls", "gini")].iter() {
+            let xs: Vec<Vec<f64>> = [3i64, 9, 0, 12, 6, 15, 1, 10].iter().map(|&m| vec![1.0 + m as f64 / 16.0, 1.0 + ((m * 5) % 16) as f64 / 16.0]).collect();
+            let mut c = mk(kind, crit, 0, 1, 0, xs, yv(&[0, 1, 0, 2, 1, 2, 0, 1]), "nearmax");
+            c.xden = 32;
+            c.q = vec![vec![1.25, 1.5], vec![1.0 + 3.0 / 32.0, 1.0 + 9.0 / 32.0]];
+            c.backend = backend;
+            c.shift = if backend == "dense32" { 127 } else { 1023 };
+            v.push(c);
+        }
+    }
+    // structured row orders: a decreasing column with one exception at either end, organ pipe, ...
+    {
+        let mut r = StdRng::seed_from_u64(4242);
+        for kind_i in 0..12usize {
+            for &n in [8usize, 11, 20].iter() {
+                let col = pattern(&mut r, kind_i, n);
+                let xs: Vec<Vec<f64>> = col.iter().map(|&a| vec![a as f64]).collect();
+                let ys: Vec<i64> = (0..n as i64).map(|i| (i * 7) % 5 - 2).collect();
+                let reg = (kind_i + n) % 2 == 0;
+                let mut c = mk(if reg { "reg" } else { "cls" }, if reg { "mse" } else { "gini" }, 0, 1, 0, xs, yv(&ys), "ordered");
+                c.shift = 0;
+                v.push(c);
+            }
         }
     }
     // the other matrix back ends on a non-square set (a layout mix-up cannot go unnoticed)
@@ -717,6 +876,18 @@ fn main() {
                 run += 1;
                 case_events(run, &c, &mut out);
             }
+            // size ladder: a few (quick) / all (thorough) of the sizes around powers of two
+            let mut sizes: Vec<usize> = vec![63, 64, 65, 127, 128, 129, 255, 256, 257, 511, 512, 513, 1023, 1024, 1025];
+            if th {
+                sizes.push(2049);
+            } else {
+                // one size from each third of the ladder
+                sizes = vec![sizes[r.gen_range(0..6)], sizes[r.gen_range(6..12)], sizes[r.gen_range(12..15)]];
+            }
+            for c in ladder_cases(&mut r, &sizes) {
+                run += 1;
+                case_events(run, &c, &mut out);
+            }
             let n = out.finish();
             println!("events={} runs={}", n, run);
         }
@@ -755,7 +926,7 @@ fn main() {
                     max_depth: l["maxDepth"].as_u64().unwrap_or(0) as u16,
                     msl: l["msl"].as_u64().unwrap_or(1) as usize,
                     mss: l["mss"].as_u64().unwrap_or(2) as usize,
-                    x, y, q, xden: 1, yden: 1, family: "model".to_string(), shift: 0, backend: "dense",
+                    x, y, q, xden: 1, yden: 1, family: "model".to_string(), shift: 0, backend: "dense", entry: "inherent",
                     expect: Some(l["expect"].clone()),
                 };
                 run += 1;
@@ -768,10 +939,51 @@ fn main() {
             let mut out = Out::create(arg(args, 1));
             let mut r = rng(55);
             let cnt = if th { 3000 } else { 400 };
+            let mut inputs: Vec<(Vec<i64>, &'static str)> = Vec::new();
             for i in 0..cnt {
                 let n = if i < 40 { i + 1 } else { r.gen_range(1..=200usize) };
                 let hi = *[1i64, 3, 10, 1000].choose(&mut r).unwrap();
-                let v: Vec<i64> = (0..n).map(|_| r.gen_range(-hi..=hi)).collect();
+                inputs.push(((0..n).map(|_| r.gen_range(-hi..=hi)).collect(), "random"));
+            }
+            // order families: every pattern at lengths around the insertion-sort cut-off (8) and
+            // beyond, plus a ladder of lengths around powers of two and a few thousand
+            let mut lens: Vec<usize> = vec![7, 8, 9, 10, 12, 15, 16, 17, 24, 33, 64, 100];
+            if th {
+                lens.extend([200usize, 300, 500].iter());
+            }
+            for kind in 0..12usize {
+                for &n in lens.iter() {
+                    inputs.push((pattern(&mut r, kind, n), "pattern"));
+                }
+                for _ in 0..(if th { 12 } else { 3 }) {
+                    let n = r.gen_range(8..=300usize);
+                    inputs.push((pattern(&mut r, kind, n), "pattern"));
+                }
+            }
+            // a structured block embedded in random data (the special paths work on sub-arrays)
+            for _ in 0..(if th { 300 } else { 40 }) {
+                let n = r.gen_range(20..=300usize);
+                let mut v: Vec<i64> = (0..n).map(|_| r.gen_range(-1000..=1000i64)).collect();
+                let m = r.gen_range(8..=n.min(60));
+                let at = r.gen_range(0..=n - m);
+                let off = r.gen_range(-2000..=2000i64);
+                let kind_i = r.gen_range(0..12);
+                let blk = pattern(&mut r, kind_i, m);
+                for i in 0..m {
+                    v[at + i] = blk[i] + off;
+                }
+                inputs.push((v, "embedded"));
+            }
+            let mut ladder: Vec<usize> = vec![63, 64, 65, 127, 128, 129, 255, 256, 257, 511, 512, 513, 1023, 1024, 1025];
+            if th {
+                ladder.extend([2047usize, 2048, 2049, 5000].iter());
+            }
+            for &n in ladder.iter() {
+                let kind = r.gen_range(0..13usize);
+                let v = if kind == 12 { (0..n).map(|_| r.gen_range(-100000..=100000i64)).collect() } else { pattern(&mut r, kind, n) };
+                inputs.push((v, "ladder"));
+            }
+            for (v, fam) in inputs.into_iter() {
                 let vf: Vec<f64> = v.iter().map(|&a| a as f64).collect();
                 run += 1;
                 let res = guard(|| {
@@ -780,9 +992,9 @@ fn main() {
                     (idx, w)
                 });
                 match res {
-                    Ok((idx, w)) => out.emit(json!({"run": run, "ev": "ArgSort", "status": "ok", "v": v,
+                    Ok((idx, w)) => out.emit(json!({"run": run, "ev": "ArgSort", "status": "ok", "family": fam, "v": v,
                         "idx": idx, "sorted": w.iter().map(|&a| int_exact(a).unwrap_or(-99999)).collect::<Vec<i64>>()})),
-                    Err(_) => out.emit(json!({"run": run, "ev": "ArgSort", "status": "panic", "v": v})),
+                    Err(_) => out.emit(json!({"run": run, "ev": "ArgSort", "status": "panic", "family": fam, "v": v})),
                 }
             }
             let n = out.finish();
